@@ -1,22 +1,25 @@
-(* C09 -- the recorded finding classes (known_findings.d/C09.json), as decidable predicates on a
-   schema / on a statement in a state of the implementation model.  Definitions only.
-   Class ids:
+(* C09 -- finding classes and theorem side conditions, as decidable predicates on a schema / on a
+   statement in a state of the implementation model.  Definitions only.
+   RECORDED FINDINGS still open at /repo HEAD 8d427ad (kn_hist_class, used by Corr/C09.v known_class):
      1  a column CHECK that CREATE TABLE drops (expr_to_string has no text for it)
      2  a CHECK comparison that is not `<this column> {<,<=,>,>=} <integer literal>`
      3  NOT inside a CHECK (ignored by the string evaluator)
      4  an OR below an AND in a CHECK (the stored text has lost the parentheses)
     10  a multi-row INSERT that fails after its first row (the earlier rows stay: F-C06-1)
-    11  a DELETE / UPDATE whose row selection includes a tombstoned entry
-    12  an UPDATE assigning one non-NULL value to a key column of two or more rows (accepted
-        when the value is not yet in the index; refused otherwise, which is right)
-    13  an UPDATE of a key column in a table without PRIMARY KEY (new value not indexed)
-    14  an UPDATE that meets an index entry whose stored row key is not the owner's row id
     15  an UPDATE that breaks a FOREIGN KEY (child value without parent / referenced parent
         value changed): UPDATE never looks at foreign keys
-    16  a DELETE on p blocked by a tombstoned child entry
-    17  a DELETE on p that matches NULL parent values with NULL child values
-    18  an INSERT into c accepted because a tombstoned parent row holds the value (scan path)
-    19  an ON DELETE CASCADE that removes a child row holding key values (its index entries stay) *)
+   REPAIRED (status fixed in known_findings.d/C09.json; the model now follows the repaired code):
+    11 tombstones selected by DELETE / UPDATE, 12 one value for a key column of several rows, 13 key
+    column without PRIMARY KEY, 14 primary-key value stored as row key, 16 deleted child blocks the
+    parent, 17 NULL = NULL, 18 scan accepts deleted parents, 19 cascade leaves index entries.
+   SIDE CONDITIONS of the statement theorems (stmt_class / hist_class: 0 = all met): besides 10 and
+   15, two conditions that the proofs still use although they are no longer findings:
+    12  the UPDATE assigns a non-NULL value to a key column of two or more rows (the repaired code
+        refuses it, as the reference does; the uniqueness lemma is proved for at most one row)
+    14  an index entry met by the UPDATE stores a row key other than the owner's row id (cannot
+        arise any more: every writer stores the row id; not proved as an invariant)
+    19  an ON DELETE CASCADE removes a child row holding key values (the repaired code removes its
+        index entries; the exactness proof covers cascades over rows without key values) *)
 From Coq Require Import ZArith List Bool.
 From TV Require Import Model.SqlSpec Model.CheckStr Model.ConstrSpec Model.ConstrImpl.
 Import ListNotations.
@@ -112,7 +115,6 @@ Fixpoint upd_key_class_from (all ds : list cdecl) (i : nat) (ts : tstate) (sets 
           if is_key d && negb (is_null nv) && nonempty_l sel
           then
             if two_plus sel then 12
-            else if match pk_pos all with None => true | Some _ => false end then 13
             else match idx_find nv (get_idx ts i), owner_id ts i nv with
                  | Some k, Some o => if k =? o then rest else 14
                  | _, _ => rest
@@ -143,15 +145,7 @@ Definition upd_fk_parent (sch : schema) (st : dstate) (sets : list (nat * value)
                                           live_has (d_c st) (fst (fst f)) ov) sel
                     | None => false end) (fk_cols sch).
 
-(* 16, 17, 19: DELETE on p against the child entries *)
-Definition del_dead_child (sch : schema) (st : dstate) (vals : list value) : bool :=
-  existsb (fun f => negb (snd f =? 2) &&
-                    existsb (fun e => e_del e && existsb (veq (col_val (fst (fst f)) (e_row e))) vals) (ents (d_c st)))
-          (fk_cols sch).
-Definition del_null_match (sch : schema) (st : dstate) (vals : list value) : bool :=
-  existsb is_null vals &&
-  existsb (fun f => existsb (fun e => live e && is_null (col_val (fst (fst f)) (e_row e))) (ents (d_c st)))
-          (fk_cols sch).
+(* 19: DELETE on p cascading over child rows that hold key values *)
 Fixpoint has_keyval (ds : list cdecl) (vs : list value) : bool :=
   match ds, vs with
   | d :: ds', v :: vs' => (is_key d && negb (is_null v)) || has_keyval ds' vs'
@@ -198,9 +192,7 @@ Definition stmt_class (sch : schema) (st : dstate) (s : stmt) : Z :=
            | TC => 0
            | TP =>
                let vals := del_vals sch sel in
-               if del_dead_child sch st vals then 16
-               else if del_null_match sch st vals then 17
-               else if del_casc_keys sch st vals then 19
+               if del_casc_keys sch st vals then 19
                else 0
            end
   | SUpd t sets w =>
@@ -228,3 +220,23 @@ Fixpoint hist_class_from (sch : schema) (st : dstate) (h : list stmt) : Z :=
 Definition hist_class (sch : schema) (h : list stmt) : Z :=
   let k := schema_class sch in
   if k =? 0 then hist_class_from sch (d_empty sch) h else k.
+
+(* ------------------------------------------------------------------ the findings still open *)
+Definition kn_stmt_class (sch : schema) (st : dstate) (s : stmt) : Z :=
+  match s with
+  | SIns t rows => if ins_partial sch t st rows then 10 else 0
+  | SDel _ _ => 0
+  | SUpd t sets w =>
+      let sel := upd_sel (cols_of sch t) (ts_of st t) sets w in
+      if match t with TC => upd_fk_child sch st sets sel | TP => upd_fk_parent sch st sets sel end then 15 else 0
+  end.
+Fixpoint kn_hist_class_from (sch : schema) (st : dstate) (h : list stmt) : Z :=
+  match h with
+  | [] => 0
+  | s :: h' =>
+      let k := kn_stmt_class sch st s in
+      if k =? 0 then kn_hist_class_from sch (snd (impl_step sch st s)) h' else k
+  end.
+Definition kn_hist_class (sch : schema) (h : list stmt) : Z :=
+  let k := schema_class sch in
+  if k =? 0 then kn_hist_class_from sch (d_empty sch) h else k.
